@@ -1763,7 +1763,16 @@ def _r7(ck, R7):
     for m in ck.repo.modules.values():
         if m is not home.mod and not any(":" in v and v.split(":")[0].lstrip(".").split(".")[-1] == "call_stack" for v in m.imports.values()):
             continue
+        aliases = set(home.kinds) if m is home.mod else {n for n, v in m.imports.items() if ":" in v and v.split(":")[1] in home.kinds
+                                                         and v.split(":")[0].lstrip(".").split(".")[-1] == "call_stack"}
         for fi in m.all_funcs():
+            # only code that names a holder object (or is a method of a thread-local class) can put something into one
+            top = fi
+            while top.cls is None and top.parent is not None:
+                top = top.parent
+            if not (aliases & {x.id for x in ast.walk(fi.node) if isinstance(x, ast.Name)}) \
+                    and not (top.cls is not None and _is_thread_local_class(ck.repo, top.cls)):
+                continue
             fa0 = FA(ck, fi)
             for (st, h, slot, v) in home.slot_stores(fa0):
                 fa = _fa_reaching(ck, fa0, st)
